@@ -1,7 +1,7 @@
 (** C14 - resize pre-flight: short files zero-extended; any over-long file aborts first.  Statements only.
     The pre-flight is evaluated against an arbitrary answer function [ans] for the probes. *)
 From TB Require Import Base Decimal BencodeModel TorrentModel TorrentProofs PathModel FsModel SolverModel FinderModel RunModel
-                       SolverProofs RunProofs FsProofs FaultProofs PreludeProofs TableProofs Generated GeneratedObligations SystemModel SystemProofs GlueProofs.
+                       SolverProofs RunProofs FsProofs FaultProofs PreludeProofs TableProofs Generated GeneratedObligations SystemModel SystemProofs GlueProofs PropertyLemmas.
 Local Open Scope N_scope.
 
 (** If any existing non-padding export file is longer than declared - wherever it sits in the list -
@@ -20,7 +20,7 @@ Proof. exact (resize_extends_exactly ans mutok es k). Qed.
 
 (** [set_len] extends with zeros and keeps the existing bytes. *)
 Theorem C14_extension_keeps_bytes b n : (length b <= n)%nat -> resize b n = b ++ repeat 0 (n - length b).
-Proof. intros Hl. unfold resize. now rewrite firstn_all2. Qed.
+Proof. exact (extension_keeps_bytes b n). Qed.
 
 (** Without the flag the prelude issues no mutating operation; lengths then change only through
     a piece's [SetLen declared], which a piece issues only after its hash matched (C01). *)
